@@ -129,7 +129,7 @@ Ltac dsplit := refine (conj _ (conj _ (conj _ (conj _ (conj _ (conj _ _)))))).
 Lemma dinv_dstep sh d ok brk x a x' :
   shape_ok sh -> (ok = true -> d_pre x = []) -> dinv sh d x -> dstep sh ok brk x a x' -> dinv sh d x'.
 Proof.
-  intros (_ & _ & Hcw & _ & Hbuf & _ & _ & _ & _ & _) Hok (I1 & I2 & I3 & I4 & I5 & I6 & I7) H.
+  intros (_ & _ & Hcw & _ & Hbuf & _ & _ & _) Hok (I1 & I2 & I3 & I4 & I5 & I6 & I7) H.
   destruct I1 as (lost & Eall & Hlost).
   inversion H; subst; unfold dinv; simpl; dsplit; simpl;
     try solve [ auto | intros; discriminate | rewrite len_nil; lia
@@ -161,13 +161,14 @@ Definition ginv (sh : shape) (s : state) : Prop :=
   /\ (forall d, d_eof (get d s) = true -> d_cop (get d s) = Done \/ closed (sink_side d) s = true)
   /\ (s_forced s = true -> exists t0, s_first s = Some t0 /\ (t0 + sh_grace sh <= s_clock s)%Z)
   /\ (forall t0, s_first s = Some t0 -> (t0 <= s_clock s)%Z)
-  /\ (s_first s = None -> forall d, d_cop (get d s) <> Done).
+  /\ (s_first s = None -> forall d, d_cop (get d s) <> Done)
+  /\ s_rdl s = None /\ s_wdl s = None.   (* no deadline is armed on the client connection *)
 
-Ltac gsplit := refine (conj _ (conj _ (conj _ (conj _ (conj _ (conj _ (conj _ _))))))).
+Ltac gsplit := refine (conj _ (conj _ (conj _ (conj _ (conj _ (conj _ (conj _ (conj _ (conj _ _))))))))).
 
-Lemma ginv_init sh e o k : shape_ok sh -> ginv sh (init e o k).
+Lemma ginv_init sh e o k : shape_ok sh -> ginv sh (init e o k None None).
 Proof.
-  intros (_ & _ & _ & _ & Hb & _ & _ & _ & _ & _).
+  intros (_ & _ & _ & _ & Hb & _ & _ & _).
   unfold ginv, init; gsplit; simpl.
   - intros [|]; unfold dinv; simpl; dsplit; simpl; try solve [auto | intros; discriminate | rewrite len_nil; lia].
     + exists []. simpl. rewrite app_nil_r. split; reflexivity.
@@ -179,6 +180,8 @@ Proof.
   - discriminate.
   - discriminate.
   - intros _ [|]; simpl; discriminate.
+  - reflexivity.
+  - reflexivity.
 Qed.
 
 Lemma dir_eq_dec (a c : dir) : {a = c} + {a <> c}.
@@ -234,19 +237,21 @@ Lemma note_done_fields a s :
   s_up (note_done a s) = s_up s /\ s_down (note_done a s) = s_down s.
 Proof. unfold note_done; destruct a, (s_first s); simpl; repeat split. Qed.
 
+Lemma note_done_deadlines a s : s_rdl (note_done a s) = s_rdl s /\ s_wdl (note_done a s) = s_wdl s.
+Proof. unfold note_done; destruct a, (s_first s); simpl; split; reflexivity. Qed.
+
 Lemma can_copy_pre sh s : sh_drain_first sh = true -> can_copy sh s = true -> d_pre (s_ct s) = [].
 Proof.
   unfold can_copy. intros -> H. simpl in H. apply andb_true_iff in H as [_ H]. apply is_nil_true; assumption.
 Qed.
 
-Lemma may_break_ok sh s d :
-  sh_clears_deadline sh = true -> sh_clears_wdeadline sh = true -> may_break sh s d = any_closed s.
-Proof. unfold may_break. intros -> ->. simpl. rewrite !orb_false_r. reflexivity. Qed.
+Lemma may_break_ok sh s d : s_rdl s = None -> s_wdl s = None -> may_break sh s d = any_closed s.
+Proof. unfold may_break. intros -> ->. destruct d; simpl; apply orb_false_r. Qed.
 
 Lemma ginv_step sh s l s' : shape_ok sh -> ginv sh s -> step sh s l s' -> ginv sh s'.
 Proof.
-  intros Hsh (ID & G1 & G2 & G3 & G4 & G5 & G6 & G7) H.
-  pose proof Hsh as (Hdf & Hrr & Hcw & Hwa & Hb & Hg & Hcu & Hcd & Hdl & Hwl).
+  intros Hsh (ID & G1 & G2 & G3 & G4 & G5 & G6 & G7 & Hdl & Hwl) H.
+  pose proof Hsh as (Hdf & Hrr & Hcw & Hwa & Hb & Hg & Hcu & Hcd).
   inversion H; subst.
   - (* tick *)
     unfold ginv, tick; gsplit; simpl.
@@ -258,6 +263,8 @@ Proof.
     + intros F. destruct (G5 F) as (t0 & E & L). exists t0. split; [assumption|lia].
     + intros t0 E. specialize (G6 t0 E). lia.
     + intros E [|]; simpl; [apply (G7 E CT) | apply (G7 E TC)].
+    + exact Hdl.
+    + exact Hwl.
   - (* reply *)
     unfold ginv, reply; gsplit; simpl.
     + intros [|]; simpl; [apply (ID CT) | apply (ID TC)].
@@ -268,6 +275,8 @@ Proof.
     + assumption.
     + assumption.
     + intros E [|]; simpl; [apply (G7 E CT) | apply (G7 E TC)].
+    + exact Hdl.
+    + exact Hwl.
   - (* drain *)
     unfold ginv, drain; gsplit; simpl.
     + intros [|]; simpl; [|apply (ID TC)].
@@ -285,6 +294,8 @@ Proof.
     + assumption.
     + assumption.
     + intros E [|]; simpl; [apply (G7 E CT) | apply (G7 E TC)].
+    + exact Hdl.
+    + exact Hwl.
   - (* close *)
     assert (BD : both_done (close_side s sd) = both_done s) by (destruct sd; reflexivity).
     assert (FC : s_forced (close_side s sd) = s_forced s || negb (both_done s)) by (destruct sd; reflexivity).
@@ -315,6 +326,8 @@ Proof.
         by (destruct sd; split; reflexivity). assumption.
     + assert (s_first (close_side s sd) = s_first s) as -> by (destruct sd; reflexivity).
       intros E d. specialize (G7 E d). destruct d, sd; simpl in *; assumption.
+    + destruct sd; exact Hdl.
+    + destruct sd; exact Hwl.
   - (* a step of direction d *)
     rename H0 into HD. rewrite (may_break_ok _ _ _ Hdl Hwl) in HD.
     assert (Hok : can_copy sh s = true -> d_pre (get d s) = []).
@@ -377,6 +390,8 @@ Proof.
       * rewrite get_set_same. intro D. destruct (dstep_cop_done _ _ _ _ _ _ HD D) as [D0|]; [|contradiction].
         apply (G7 E0 d D0).
       * rewrite get_set_other by assumption. apply G7; assumption.
+    + rewrite (proj1 (note_done_deadlines a (set d s x'))). destruct d; exact Hdl.
+    + rewrite (proj2 (note_done_deadlines a (set d s x'))). destruct d; exact Hwl.
 Qed.
 
 Lemma ginv_steps sh s tr s' : shape_ok sh -> ginv sh s -> steps sh s tr s' -> ginv sh s'.
@@ -432,7 +447,7 @@ Hypothesis Hsh : shape_ok sh.
 Variables e k : list N.          (* early bytes: client's (bufio), far endpoint's (transport buffer) *)
 Variable tr : list label.
 Variable s : state.
-Hypothesis Hreach : steps sh (init e [] k) tr s.
+Hypothesis Hreach : steps sh (init e [] k None None) tr s.   (* no deadline armed at hand-over: Deadlines.v *)
 
 Lemma reach_inv : ginv sh s.
 Proof. eapply ginv_steps; [assumption | apply ginv_init; assumption | eassumption]. Qed.
@@ -492,8 +507,8 @@ Definition quiet : Prop := forall l s', step sh s l s' -> is_env l = true.
 Lemma quiet_done d : quiet -> d_wcl (get d s) = true -> d_cop (get d s) = Done.
 Proof.
   intros Q W.
-  destruct Hsh as (Hdf & Hrr & Hcw & Hwa & Hb & Hg & Hcu & Hcd & Hdl & Hwl).
-  destruct reach_inv as (ID & G1 & G2 & G3 & G4 & G5 & G6 & G7).
+  destruct Hsh as (Hdf & Hrr & Hcw & Hwa & Hb & Hg & Hcu & Hcd).
+  destruct reach_inv as (ID & G1 & G2 & G3 & G4 & G5 & G6 & G7 & Hdl & Hwl).
   (* the reply has been written *)
   assert (Rp : s_replied s = true).
   { destruct (s_replied s) eqn:R; [reflexivity|]. specialize (Q LReply _ (S_reply sh s R)). discriminate. }
@@ -592,7 +607,7 @@ Lemma both_closed :
 Proof.
   intros Q W1 W2.
   pose proof (quiet_done CT Q W1) as D1. pose proof (quiet_done TC Q W2) as D2. simpl in D1, D2.
-  destruct Hsh as (_ & _ & _ & Hwa & _ & _ & Hcu & Hcd & _ & _).
+  destruct Hsh as (_ & _ & _ & Hwa & _ & _ & Hcu & Hcd).
   assert (Fin : finished sh s = true).
   { unfold finished, both_done, is_done. rewrite Hwa, D1, D2. reflexivity. }
   split.
@@ -622,7 +637,12 @@ Proof.
 Qed.
 
 Lemma may_break_after sh a d s x d' : may_break sh (note_done a (set d s x)) d' = may_break sh s d'.
-Proof. unfold may_break. rewrite any_closed_after. reflexivity. Qed.
+Proof.
+  unfold may_break. rewrite any_closed_after.
+  destruct (note_done_fields a (set d s x)) as (_ & _ & _ & N4 & _).
+  destruct (note_done_deadlines a (set d s x)) as (R & W). rewrite R, W, N4.
+  destruct d, d'; reflexivity.
+Qed.
 
 Lemma get_after_other a d d' s x : d' <> d -> get d' (note_done a (set d s x)) = get d' s.
 Proof. intro NE. rewrite get_note_done. apply get_set_other; assumption. Qed.
@@ -630,7 +650,7 @@ Proof. intro NE. rewrite get_note_done. apply get_set_other; assumption. Qed.
 Lemma set_note_commute a1 a2 s x1 x2 :
   note_done a2 (set TC (note_done a1 (set CT s x1)) x2) = note_done a1 (set CT (note_done a2 (set TC s x2)) x1).
 Proof.
-  unfold note_done. destruct s as [rp ct tc ck [t0|] fo up dn]; destruct a1, a2; reflexivity.
+  unfold note_done. destruct s as [rp ct tc ck [t0|] fo up dn rd wd]; destruct a1, a2; reflexivity.
 Qed.
 
 (* steps of different directions commute: neither can disable, delay or alter the other *)
